@@ -115,7 +115,7 @@ class Equivalence:
                                       diffitem[4].replace("'","\\'")))
             outscript.append("{0}.set('{1}', '{2}')".format(selfvar,
                                       diffitem[3].replace("'","\\'"),
-                                      diffitem[5].replace("'","\\'")))
+                                      str(diffitem[5]).replace("'","\\'")))
         elif diffitem[1] == "<":
           if diffitem[2] == "tag":
             outscript.append("{0}.delete('{1}')".format(selfvar,
